@@ -110,7 +110,11 @@ func TestC10_P_Deterministic(t *testing.T) {
 			if kind == "threshold" {
 				// ~1150 entries of mixed link lengths whose size estimate sits exactly at the auto-shard threshold -1/0/+1:
 				// the plain-vs-sharded decision must not depend on the order of the entries
-				es = c02ThresholdSet(shardThreshold+rapid.IntRange(-1, 1).Draw(t, "delta"), salt)
+				if d := rapid.IntRange(-1, 2).Draw(t, "delta"); d == 2 {
+					es = c02ThresholdPlus(salt, rapid.IntRange(1, 3).Draw(t, "extra")) // a prefix sums to exactly the threshold
+				} else {
+					es = c02ThresholdSet(shardThreshold+d, salt)
+				}
 				kind = rapid.SampledFrom([]string{"plain", "quick"}).Draw(t, "thrBuilder")
 			} else {
 				names, _ := genNames(t, nameOpts{Max: maxN})
@@ -193,4 +197,66 @@ func TestC10_P_RepeatedShardedBuild(t *testing.T) {
 		ev.Case(fmt.Sprintf("repeat-%d", i), true, "repeat")
 	}
 	ev.Sample(map[string]any{"entries": len(es), "fanout": 16, "builds": n, "root": first.root.String(), "blocks": first.nblk})
+}
+
+// Builds interleaved with builds of other inputs (other fanouts, widths, kinds) in one process: the result for an input must
+// not depend on what was built before it. Runs first thing in a fresh process, narrow fanouts before and after wide ones.
+func TestC10_R_InterveningBuilds(t *testing.T) {
+	var es []entrySpec
+	for i := 0; i < 40; i++ {
+		es = append(es, entryFor(fmt.Sprintf("n-%d", i), 1))
+	}
+	for _, n := range collisions.Clusters[0] {
+		es = append(es, entryFor(n, 1))
+	}
+	content := lcgBytes(700, 3, 0)
+	type key struct {
+		kind string
+		f    int
+	}
+	first := map[key]buildResult{}
+	order := []int{8, 16, 1024, 8, 256, 16, 64, 512, 32, 8, 128, 1024, 16, 256}
+	for round, f := range order {
+		st := NewStore()
+		c, sz, err := buildSharded(st, es, f)
+		if err != nil {
+			t.Fatal(err)
+		}
+		r := buildResult{c, sz, blockSetKey(st), st.Len()}
+		if prev, ok := first[key{"sharded", f}]; ok && prev != r {
+			t.Fatalf("C10: sharded build at fanout %d (round %d, after builds at other fanouts) returned %s/%d, the first build at that fanout returned %s/%d", f, round, r.root, r.size, prev.root, prev.size)
+		}
+		first[key{"sharded", f}] = r
+		// a file build at a width derived from the round, and a plain / quick directory, in between
+		w := 2 + round%4
+		stf := NewStore()
+		fc, fsz, err := buildFile(stf, content, "size-7", w)
+		if err != nil {
+			t.Fatal(err)
+		}
+		rf := buildResult{fc, fsz, blockSetKey(stf), stf.Len()}
+		if prev, ok := first[key{"file", w}]; ok && prev != rf {
+			t.Fatalf("C10: file build at width %d (round %d) returned %s/%d, first time %s/%d", w, round, rf.root, rf.size, prev.root, prev.size)
+		}
+		first[key{"file", w}] = rf
+		for _, how := range []string{"plain", "quick"} {
+			std := NewStore()
+			dc, dsz, err := c02Build(std, es[:10+round], how, 256)
+			if err != nil {
+				t.Fatal(err)
+			}
+			rd := buildResult{dc, dsz, blockSetKey(std), std.Len()}
+			k := key{how, 10 + round}
+			if prev, ok := first[k]; ok && prev != rd {
+				t.Fatalf("C10: %s directory build differs between rounds", how)
+			}
+			first[k] = rd
+		}
+	}
+	// and the plain and quick builders agree with each other
+	for round := range order {
+		if first[key{"plain", 10 + round}] != first[key{"quick", 10 + round}] {
+			t.Fatalf("C10: plain and quick builder disagree on %d entries", 10+round)
+		}
+	}
 }
